@@ -426,6 +426,13 @@ MUTATIONS += [
     dict(id="C12-merge-heap-not-reversed", prop="C12", file=TRF, old="            self.0.name().cmp(&other.0.name()).reverse()", new="            self.0.name().cmp(&other.0.name())"),
 ]
 
+# ---- C02 find_used_blobs (typed blob identity)
+MUTATIONS += [
+    dict(id="C02-used-file-chunks-as-tree", prop="C02", file=PR, old="                            .map(|id| ((BlobType::Data, BlobId::from(**id)), 0)),", new="                            .map(|id| ((BlobType::Tree, BlobId::from(**id)), 0)),"),
+    dict(id="C02-used-subtree-as-data", prop="C02", file=PR, old="                    _ = ids.insert((BlobType::Tree, BlobId::from(*node.subtree.unwrap())), 0);", new="                    _ = ids.insert((BlobType::Data, BlobId::from(*node.subtree.unwrap())), 0);"),
+    dict(id="C02-used-dirs-ignored", prop="C02", file=PR, old="                NodeType::Dir => {\n                    _ = ids.insert((BlobType::Tree, BlobId::from(*node.subtree.unwrap())), 0);\n                }", new="                NodeType::Dir => {}"),
+]
+
 HARMLESS = [
     dict(id="H-C05-trees-symlink-continue", prop="C05", file=CK, old="        for node in tree.nodes {\n            match node.node_type {", new="        for node in tree.nodes {\n            if node.node_type == NodeType::Symlink {\n                continue;\n            }\n            match node.node_type {"),
     # independent statements reordered
